@@ -268,3 +268,74 @@ func VPH_C07_responsewriter() {
 	vp.Assert(rw.size == len(b), "size-counted")
 	vp.Assert(rw.Header() != nil, "header-map-shared")
 }
+
+// VPH_C07_escaped_path: the upstream receives the client's percent-encoding (RawPath) rewritten
+// by strip and prepend exactly like the decoded path. The request carries an encoded slash or an
+// encoded blank after an arbitrary prefix and before an arbitrary tail.
+func VPH_C07_escaped_path() {
+	pre, tail := vp.String("prefix"), vp.String("tail")
+	vp.Assume(strings.HasPrefix(pre, "/") && !strings.Contains(pre, "%") && !strings.Contains(tail, "%"))
+	dec, raw := "/a/b", "/a%2Fb"
+	if vp.Bool("encoded-blank") {
+		dec, raw = "/a b", "/a%20b"
+	}
+	path, rawpath := pre+dec+tail, pre+raw+tail
+	strip, prepend := "", ""
+	switch vp.Choice("strip", 3) {
+	case 1:
+		strip = pre // the route's prefix
+		vp.Cover("strip-prefix")
+	case 2:
+		strip = vp.String("strip")
+	}
+	if vp.Bool("prepend") {
+		prepend = vp.String("prepend-text")
+		vp.Assume(!strings.Contains(prepend, "%"))
+	}
+	t := &route.Target{Service: "svc", URL: &url.URL{Scheme: "http", Host: "up:80", Path: "/"}, StripPath: strip, PrependPath: prepend}
+	r := vpRequest("GET", "h", path, "", "1.2.3.4:5555")
+	r.URL.RawPath = rawpath
+	rt := &vpRT{resp: &http.Response{StatusCode: 200, Header: http.Header{}, Body: vpNoBody{}}}
+	w := &vpRW{hdr: http.Header{}}
+	vpProxy(t, rt, config.Proxy{}).ServeHTTP(w, r)
+	vp.Assert(rt.calls == 1, "upstream-contacted-once")
+	if rt.calls != 1 {
+		return
+	}
+	out := rt.req.URL
+	// reference: both forms rewritten alike; if the escaped form does not carry the strip prefix
+	// the hint is dropped (the path is then re-encoded by net/url)
+	wantPath, wantRaw := path, rawpath
+	if strip != "" && strings.HasPrefix(wantPath, strip) {
+		wantPath = wantPath[len(strip):]
+		if !strings.HasPrefix(wantPath, "/") {
+			wantPath = "/" + wantPath
+		}
+		if strings.HasPrefix(wantRaw, strip) {
+			wantRaw = wantRaw[len(strip):]
+			if !strings.HasPrefix(wantRaw, "/") {
+				wantRaw = "/" + wantRaw
+			}
+		} else {
+			wantRaw = ""
+		}
+	}
+	if prepend != "" {
+		wantPath = prepend + wantPath
+		if !strings.HasPrefix(wantPath, "/") {
+			wantPath = "/" + wantPath
+		}
+		if wantRaw != "" {
+			wantRaw = prepend + wantRaw
+			if !strings.HasPrefix(wantRaw, "/") {
+				wantRaw = "/" + wantRaw
+			}
+		}
+	}
+	vp.Assert(out.Path == wantPath, "path-rewritten-only-by-strip-and-prepend")
+	if wantRaw != "" {
+		vp.Cover("encoding-kept")
+		vp.Assert(out.RawPath == wantRaw, "client-percent-encoding-kept")
+	}
+	// (without a usable escaped form net/url re-encodes the decoded path: nothing is required of the hint)
+}
